@@ -145,7 +145,20 @@ pub fn save_options(rng: &mut Rng) -> SaveOptions {
 
 /// A base file written by the real writers: (entry point, file name, bytes).
 pub fn base_file(rng: &mut Rng) -> (String, String, Vec<u8>) {
-    let kind = rng.below(20);
+    base_file_ext(rng, None)
+}
+
+/// `force`: an extension of the buffer formats (the document is bent to fit it), or one of
+/// "psf" / "tdf" / "pal" / "clip" for the other readers.
+pub fn base_file_ext(rng: &mut Rng, force: Option<&str>) -> (String, String, Vec<u8>) {
+    let kind = match force {
+        None => rng.below(20),
+        Some("psf") => 0,
+        Some("tdf") => 2,
+        Some("pal") => 4,
+        Some("clip") => 6,
+        Some(_) => 19,
+    };
     match kind {
         0 | 1 => {
             // bitmap fonts
@@ -231,15 +244,27 @@ pub fn base_file(rng: &mut Rng) -> (String, String, Vec<u8>) {
             ("Layer::from_clipboard_data".into(), "clipboard".into(), bytes)
         }
         _ => {
-            let doc = gen_doc(rng, 132, 60);
-            let opts = save_options(rng);
+            // the extension first, then a document that format can carry: every loader gets its share
             let mut tries = 0;
             loop {
-                let ext = *rng.pick(&EXTS[..18]);
+                let ext = match force {
+                    Some(e) if tries < 6 => e,
+                    _ => *rng.pick(&EXTS[..18]),
+                };
+                let mut doc = gen_doc(rng, 132, 60);
+                conform(rng, &mut doc, ext);
+                let opts = save_options(rng);
                 if ext == "icy" && doc.font_count() > 1 {
                     // the IcyDraw writer emits FONT chunks in hash-map order: the bytes would not be a
                     // function of the seed. Documents with two fonts are saved in the other formats.
-                    continue;
+                    doc.remove_font(1);
+                    for l in &mut doc.layers {
+                        for line in &mut l.lines {
+                            for c in &mut line.chars {
+                                c.attribute.set_font_page(0);
+                            }
+                        }
+                    }
                 }
                 let r = std::panic::catch_unwind(std::panic::AssertUnwindSafe(|| doc.to_bytes(ext, &opts)));
                 if let Ok(Ok(mut bytes)) = r {
@@ -259,6 +284,41 @@ pub fn base_file(rng: &mut Rng) -> (String, String, Vec<u8>) {
                 }
             }
         }
+    }
+}
+
+/// Bends a generated document into what the format of `ext` can carry (its writer refuses the rest).
+fn conform(rng: &mut Rng, doc: &mut Buffer, ext: &str) {
+    let single_font = |doc: &mut Buffer| {
+        doc.remove_font(1);
+        for l in &mut doc.layers {
+            for line in &mut l.lines {
+                for c in &mut line.chars {
+                    c.attribute.set_font_page(0);
+                }
+            }
+        }
+    };
+    match ext {
+        "idf" | "adf" => {
+            doc.ice_mode = IceMode::Ice;
+            single_font(doc);
+            doc.set_font(0, BitFont::default());
+            doc.palette.resize(16);
+            if ext == "adf" || rng.chance(1, 2) {
+                let h = doc.get_height();
+                doc.set_size((80, h));
+                doc.layers[0].set_size((80, h));
+            }
+        }
+        "bin" => {
+            let (w, h) = (doc.get_width(), doc.get_height());
+            let w = ((w + 1) / 2 * 2).max(2);
+            doc.set_size((w, h));
+            doc.layers[0].set_size((w, h));
+        }
+        "tnd" => single_font(doc),
+        _ => {}
     }
 }
 
@@ -596,13 +656,22 @@ pub fn enum_fault(bytes: &mut Vec<u8>, f: u64) -> Option<String> {
 }
 
 /// Enumeration leg of C02: base file `b` (a function of the seed and b only) with its `f`-th single fault.
-pub fn gen_load_enum(prop: &'static str, seed: u64, b: u64, f: u64) -> Trace {
+/// The readers, in the order base files are dealt to them in the sweeps.
+pub const SWEEP_KINDS: [&str; 22] = [
+    "ans", "ice", "diz", "icy", "idf", "bin", "xb", "tnd", "pcb", "avt", "asc", "adf", "msg", "an1", "an5", "an9", "seq", "ata", "psf", "tdf", "pal", "clip",
+];
+
+/// Truncation-only sweep: every prefix of a base file (quota = ENUM_MAX_LEN + 1 run indices per file).
+pub const TRUNC_QUOTA: u64 = ENUM_MAX_LEN as u64 + 1;
+
+pub fn gen_load_enum(prop: &'static str, seed: u64, b: u64, f: u64, trunc_only: bool) -> Trace {
     let mut t = Trace::new(prop, "load");
     t.cfg.clock_ms = 1_700_000_000_000;
-    let mut rng = Rng::for_run(seed, "C02-base", b);
+    let mut rng = Rng::for_run(seed, if trunc_only { "C02-trunc-base" } else { "C02-base" }, b);
+    let kind = SWEEP_KINDS[(b % SWEEP_KINDS.len() as u64) as usize];
     let mut tries = 0;
     let (entry, name, mut bytes) = loop {
-        let x = base_file(&mut rng);
+        let x = base_file_ext(&mut rng, Some(kind));
         if x.2.len() <= ENUM_MAX_LEN || tries > 20 {
             break x;
         }
@@ -610,10 +679,19 @@ pub fn gen_load_enum(prop: &'static str, seed: u64, b: u64, f: u64) -> Trace {
     };
     bytes.truncate(ENUM_MAX_LEN);
     let ext = name.rsplit_once('.').map_or("none", |x| x.1).to_string();
-    match enum_fault(&mut bytes, f) {
+    let fault = if trunc_only {
+        if f <= bytes.len() as u64 {
+            enum_fault(&mut bytes, f)
+        } else {
+            None
+        }
+    } else {
+        enum_fault(&mut bytes, f)
+    };
+    match fault {
         Some(ann) => {
             t.labels.push(format!("load_class={entry}/{ext}/enum"));
-            t.labels.push(format!("enum_base={b}"));
+            t.labels.push(format!("{}={b}", if trunc_only { "trunc_base" } else { "enum_base" }));
             t.faults.push(ann);
         }
         None => {
